@@ -55,13 +55,18 @@ def convertArg (parse : String → Option Q) (pos : DecPos) (v : PyVal) : R PyVa
     bindE (mapE (fun (kv : PyVal × PyVal) => bindE (toDecimal parse kv.2) fun y => .ok (kv.1, y)) kvs) fun r => .ok (.dict r)
   | _, v => .ok v
 
+/-- the argument `name = v` as the constructor's field receives it (a `None` is left to the constructor: it may be
+    dropped by `_ignore_none`) -/
+def convertAt (parse : String → Option Q) (decs : List (String × DecPos)) (name : String) (v : PyVal) : R PyVal :=
+  match lookup name decs with
+  | some pos => if v.isNone then .ok v else convertArg parse pos v
+  | none => .ok v
+
 def convertKw (parse : String → Option Q) (decs : List (String × DecPos)) :
     List (String × PyVal) → R (List (String × PyVal))
   | [] => .ok []
   | (name, v) :: rest =>
-    bindE (match lookup name decs with
-            | some pos => if v.isNone then .ok v else convertArg parse pos v
-            | none => .ok v) fun y =>
+    bindE (convertAt parse decs name v) fun y =>
     bindE (convertKw parse decs rest) fun ys => .ok ((name, y) :: ys)
 
 /-- keyword construction of a class with DecimalNumber fields at `decs` -/
